@@ -2,6 +2,7 @@
 Import of line-by-line data stored as a series of .csv files.
 """
 
+import calendar
 import logging
 import re
 import time
@@ -144,7 +145,8 @@ class TofwerkOption(GenericOption):
     def sortkey(self, path: Path) -> float:
         """Sorts files using the timestamp in name."""
         match = self.regex.match(path.name)
-        return time.mktime(time.strptime(match.group(1), "%Y.%m.%d-%Hh%Mm%Ss"))
+        # timegm, not mktime: the order must not depend on the local time zone
+        return calendar.timegm(time.strptime(match.group(1), "%Y.%m.%d-%Hh%Mm%Ss"))
 
 
 def is_valid_directory(path: str | Path) -> bool:
